@@ -69,16 +69,24 @@ CSupBin(p) == {[op |-> o, dst |-> d, a |-> a, b |-> b] : o \in {"Union", "Inter"
 CGet(p) == {[op |-> "GetSupport", dst |-> d, src |-> s] : d \in Work, s \in Ps(p)}
            \cup {[op |-> "GetGrid", dst |-> d, src |-> s] : d \in Work, s \in Live(p)}
 CDestroy(p) == {[op |-> "Destroy", dst |-> d] : d \in Work \cap Live(p)}
+\* linearCombination over two or three splines of one order; scalar products / forms (read-only)
+CLin(p) == UNION {{[op |-> "LinComb", dst |-> d, srcs |-> ss, cs |-> SubSeq(<<RTwo, R(-1, 2), ROne>>, 1, Len(ss))] :
+                     d \in Work, ss \in {<<a, b>> : a \in {x \in LowP(p) : p[x].o = o}, b \in {x \in LowP(p) : p[x].o = o}}
+                                       \cup (IF Sim THEN {<<a, b, a>> : a \in {x \in LowP(p) : p[x].o = o}, b \in {x \in LowP(p) : p[x].o = o}} ELSE {})} :
+                  o \in 0..3}
+CBF(p) == {[op |-> "BF", a |-> a, b |-> b, which |-> w] : a \in LowP(p), b \in LowP(p), w \in (IF Sim THEN {"sp", "dx", "xd"} ELSE {"xd"})}
 CEval(p) == {[op |-> "Eval", src |-> s, x |-> x] : s \in Ps(p),
                x \in IF Sim THEN {FromInt(0), FromInt(2), FromInt(3), FromInt(6), FromInt(9), R(-1, 2)} ELSE {FromInt(3)}}
 
 Kinds == <<"GridNew", "SupNew", "SplNew", "Copy", "Move", "CopyAssign", "MoveAssign", "AssignLower", "InPlace", "ScaleAssign",
-           "Bin", "Un", "Apply", "SupBin", "Get", "Destroy", "Eval", "InPlace", "Bin", "Move", "CopyAssign", "MoveAssign", "AssignLower">>
+           "Bin", "Un", "Apply", "SupBin", "Get", "Destroy", "Eval", "InPlace", "Bin", "Move", "CopyAssign", "MoveAssign", "AssignLower",
+           "Lin", "BF">>
 OfKind(p, kd) ==
   CASE kd = "GridNew" -> CGridNew(p) [] kd = "SupNew" -> CSupNew(p) [] kd = "SplNew" -> CSplNew(p)
     [] kd = "Copy" -> CCopy(p) [] kd = "Move" -> CMove(p) [] kd = "CopyAssign" -> CCopyAssign(p)
     [] kd = "MoveAssign" -> CMoveAssign(p) [] kd = "AssignLower" -> CAssignLower(p) [] kd = "InPlace" -> CInPlace(p)
     [] kd = "ScaleAssign" -> CScaleAssign(p) [] kd = "Bin" -> CBin(p) [] kd = "Un" -> CUn(p) [] kd = "Apply" -> CApply(p)
+    [] kd = "Lin" -> CLin(p) [] kd = "BF" -> CBF(p)
     [] kd = "SupBin" -> CSupBin(p) [] kd = "Get" -> CGet(p) [] kd = "Destroy" -> CDestroy(p) [] kd = "Eval" -> CEval(p)
 AllCmds(p) == UNION {OfKind(p, Kinds[i]) : i \in DOMAIN Kinds}
 
